@@ -27,7 +27,7 @@ def harness_fault():
 
 @st.composite
 def cases(draw, tier="quick"):
-    kind = draw(st.sampled_from(["readers", "readers", "readers", "cz", "xw", "failcopy"]))
+    kind = draw(st.sampled_from(["readers", "readers", "readers", "cz", "xw", "failcopy", "xwfail"]))
     case = dict(kind=kind, pool=draw(st.sampled_from(list(range(9)) + [6, 7])), dot=draw(st.booleans()))
     opst = st.tuples(st.sampled_from(["inode", "lsdir", "lspart", "resolve", "read", "block", "frag", "stream", "xattr", "xdesc", "id", "mseek", "root", "cross"]),
                      st.integers(0, 10 ** 6), st.integers(0, 10 ** 6), st.integers(0, 10 ** 6), st.integers(1, 9))
@@ -45,6 +45,8 @@ def cases(draw, tier="quick"):
         case["pre"] = draw(st.lists(opst, min_size=0, max_size=8))
         case["k"] = draw(st.one_of(st.integers(1, 45), st.integers(1, 45), st.just(-1)))     # -1: out of file descriptors instead
         case["post"] = [("o", draw(opst)) for _ in range(draw(st.integers(2, 16)))]
+    elif kind == "xwfail":
+        case["xwfail"] = (draw(st.integers(1, 10 ** 6)), draw(st.integers(0, 30)), draw(st.integers(1, 60)), draw(st.integers(0, 20)))
     elif kind == "cz":
         case["cz"] = [(draw(st.sampled_from([1, 2, 4, 5, 6])), draw(st.one_of(st.just(0), st.integers(1, 40000), st.integers(1, 40000))), draw(st.integers(1, 10 ** 6)), draw(st.sampled_from([16, 100, 4096, 5000, 65536])), draw(st.integers(0, 1)))
                       for _ in range(draw(st.integers(1, 4)))]
@@ -80,6 +82,8 @@ def check_case(case, opts):
             l, _ = c10.render(dict(ops=[op]), P)
             lines.append("o " + l[0])
         lines.append("drop o")
+    elif case["kind"] == "xwfail":
+        lines.append("xwfail %d %d %d %d" % tuple(case["xwfail"]))
     elif case["kind"] == "cz":
         lines += ["cz %d %d %d %d %d" % tuple(t) for t in case["cz"]]
     else:
@@ -88,7 +92,7 @@ def check_case(case, opts):
         of = os.path.join(sc, "ops.txt")
         with open(of, "w", encoding="latin-1") as fh:
             fh.write("\n".join(lines) + "\n")
-        r = vcommon.run([opts["bin_fault"] if case["kind"] == "failcopy" else opts["bin"], P["path"], of], timeout=120,
+        r = vcommon.run([opts["bin_fault"] if case["kind"] in ("failcopy", "xwfail") else opts["bin"], P["path"], of], timeout=120,
                         env={"VERIF_DIR_READER_FLAGS": "1"} if case.get("dot") else None)
         out = r.out.decode(errors="replace")
         prog = "\n".join(lines)
@@ -108,6 +112,9 @@ def check_case(case, opts):
         nontrivial = True
         if case["kind"] == "readers":
             nontrivial = len(case["pre"]) >= 1 and any(w == "o" for w, _ in case["post"]) and any(w == "c" for w, _ in case["post"])
+        if case["kind"] == "xwfail":
+            nontrivial = "delivered=1" in out
+            return CaseInfo(nontrivial, ["kind_xwfail", "fault_delivered" if nontrivial else "copy_complete_then_released"])
         if case["kind"] == "failcopy":
             nontrivial = "delivered=1" in out
             return CaseInfo(nontrivial, ["kind_failcopy", "fault_delivered" if nontrivial else "copy_complete_then_released"])
@@ -134,7 +141,7 @@ def main(tier, seed, scale=1.0):
     res.rule = ("Hypothesis programs: 0-12 operations before sqfs_copy() of every reader object, 2-24 interleaved operations on original and copy, "
                 "release of either object at a random point with the survivor used afterwards; compressor copies (gzip, lzma, xz, lz4, zstd, both "
                 "directions, with compression history and option sets) and xattr writer copies (0-40 sets before, 0-10 on the original only, 0-40 after); "
-                "copies of the reader set that run out of memory at the k-th allocation (k=1..45), after which the original is compared with a twin; "
+                "copies of the reader set and of an xattr writer that run out of memory at the k-th allocation (k=1..60), after which the original is compared with a twin; "
                 "non-trivial = >=1 state-building operation before the copy and >=1 operation on each object after it; oracle = twin object with "
                 "the same history answers identically, flushed bytes identical, ASan clean in both release orders")
     res.assumptions = ["images from the C10 pool (undamaged ones)", "digests are FNV-1a over payloads"]
